@@ -458,6 +458,32 @@ func Run(r *evid.Run) {
 }
 
 func Replay(raw json.RawMessage) (string, bool) {
+	var probe struct {
+		Kind    string `json:"kind"`
+		Variant string `json:"variant"`
+		L1      int    `json:"l1"`
+		L2      int    `json:"l2"`
+		Order   int    `json:"order"`
+	}
+	_ = json.Unmarshal(raw, &probe)
+	switch probe.Kind {
+	case "visibility":
+		rr := evid.NewRun("C02", "exploration")
+		runVisibilityOnly(rr, probe.Variant)
+		sigs := rr.ViolationSignatures()
+		return "re-explored variant " + probe.Variant + ": " + strings.Join(sigs, "; ") + "\n", len(sigs) == 0
+	case "lengths":
+		sigs, details := c01pkg.RunLengthsExt(c01pkg.Case{Kind: "lengths", Lo: probe.L1, Hi: probe.L2, Flags: probe.Order})
+		var sb strings.Builder
+		bad := false
+		for k, sg := range sigs {
+			if strings.HasSuffix(sg, "/TXN") {
+				fmt.Fprintf(&sb, "txn/%s: %s\n", sg, details[k])
+				bad = true
+			}
+		}
+		return sb.String(), !bad
+	}
 	var c Case
 	if err := json.Unmarshal(raw, &c); err != nil {
 		return err.Error(), false
@@ -477,7 +503,11 @@ func Replay(raw json.RawMessage) (string, bool) {
 // and of the read path (build overlay); all interleavings up to a preemption bound. Every read must
 // equal the state at an entry boundary of the call (in log order) - never part of a transaction.
 
-func runVisibility(r *evid.Run) {
+func runVisibility(r *evid.Run) { runVisibilityOnly(r, "") }
+
+// runVisibilityOnly explores one variant only (replay of a visibility artefact: the bounded
+// exploration of a variant is deterministic and takes seconds) or all of them (only == "").
+func runVisibilityOnly(r *evid.Run, only string) {
 	t0 := time.Now()
 	bound := 2
 	if r.Thorough() {
@@ -490,6 +520,9 @@ func runVisibility(r *evid.Run) {
 	}
 	defer func() { vp.Hook = nil }()
 	for _, variant := range []string{"txn-alone", "put-then-txn-in-one-call", "txn-with-delete-and-put", "txn-alone/reader=readonly-txn-without-predicates", "txn-alone/reader=readonly-txn-with-predicate"} {
+		if only != "" && variant != only {
+			continue
+		}
 		var inst *fsmx.Inst
 		var reads []string
 		var updErr string
